@@ -314,7 +314,8 @@ func cellLength(data []byte, pos int, typ byte, metadata uint16) (int, error) {
 // and return the Buffer.
 func printTimestamp(v uint32) *bytes.Buffer {
 	if v == 0 {
-		return bytes.NewBuffer(ZeroTimestamp)
+		// hand out a copy: the caller owns (and may modify) the returned bytes
+		return bytes.NewBuffer(append([]byte{}, ZeroTimestamp...))
 	}
 
 	t := time.Unix(int64(v), 0).Local()
